@@ -39,7 +39,7 @@ OkU(op, e) == e.k \notin {"bin", "un"}
 AllOps == (ArithOps \ {"**"}) \cup CmpOps \cup {"and", "or", "in", "not in"}
 Leaves == {EInt(0), EInt(2), EInt(3), EId("CI"), EId("CN"), EFloat(3, 1), EId("CF"), EId("CS"), EId("CT"),
            EStr(<<"u3", "s4">>), EBool(FALSE), EId("CB")}
-IdxLeaves == {EInt(0), EInt(4), EInt(5), EUn("-", EInt(1)), EUn("-", EInt(6))}
+IdxLeaves == {EInt(0), EInt(1), EInt(2), EInt(4), EInt(5), EUn("-", EInt(1)), EUn("-", EInt(2)), EUn("-", EInt(3)), EUn("-", EInt(5)), EUn("-", EInt(6))}
 D1 == {EBin(o, l, r) : o \in AllOps, l \in Leaves, r \in Leaves}
       \cup {EUn(o, l) : o \in {"-", "not"}, l \in Leaves}
       \* powers: the result is int only for int ** non-negative int LITERAL; a const used as exponent is not a literal
